@@ -29,12 +29,13 @@ type Case struct {
 	Workers    int    `json:"worker_pool_size"`
 	BufferSize int    `json:"buffer_size"`
 	Subs       int    `json:"subscribers"`
-	Bursts     []int  `json:"bursts"`      // sizes of the publish bursts
-	ReadYield  int    `json:"read_yield"`  // how slowly the subscribers read
-	ReaderLate bool   `json:"reader_late"` // the subscribers start reading only after the first burst was published (queue back-ends)
+	Bursts     []int  `json:"bursts"`              // sizes of the publish bursts
+	ReadYield  int    `json:"read_yield"`          // how slowly the subscribers read
+	ReaderLate bool   `json:"reader_late"`         // the subscribers start reading only after the first burst was published (queue back-ends)
+	Sustained  int    `json:"sustained,omitempty"` // after the bursts: that many messages published back-to-back to fast readers
 	StatsCalls int    `json:"cancelled_stats_calls"`
-	Stop       string `json:"stop"`       // stop | cancel | wait-then-stop
-	StopAt     string `json:"stop_at"`    // idle | backlog | mid-publish
+	Stop       string `json:"stop"`    // stop | cancel | wait-then-stop
+	StopAt     string `json:"stop_at"` // idle | backlog | mid-publish
 	Procs      int    `json:"gomaxprocs"`
 }
 
@@ -219,6 +220,52 @@ func runCase(c *Case) (string, string) {
 			return "stalled", fmt.Sprintf("the backlog stays at %d for %v after burst %d although every subscriber keeps receiving", b.Stats(ctx).BufferDepth, limit, bi)
 		}
 	}
+	// sustained traffic: a defect that loses one wake-up in several
+	// thousand dispatches only shows under a long uninterrupted stream.
+	// Progress is judged by a watchdog: neither the publisher nor the
+	// readers advance for the quiescence limit although nothing was
+	// stopped.
+	if c.Sustained > 0 && !stopped.Load() {
+		var sent atomic.Int64
+		pubEnd := make(chan struct{})
+		go func() {
+			defer close(pubEnd)
+			for i := 0; i < c.Sustained && pubCtx.Err() == nil; i++ {
+				b.Publish(pubCtx, published+i)
+				sent.Add(1)
+			}
+		}()
+		last, since := int64(-1), time.Now()
+		for done := false; !done; {
+			select {
+			case <-pubEnd:
+				done = true
+			case <-time.After(2 * time.Millisecond):
+				if cur := sent.Load() + received.Load(); cur != last {
+					last, since = cur, time.Now()
+				} else if time.Since(since) > limit {
+					cancelPub()
+					<-pubEnd
+					return "stalled", fmt.Sprintf("sustained traffic: no progress for %v after %d of %d messages were published and %d deliveries made, although every subscriber keeps receiving and nothing was stopped (backlog %d)", limit, sent.Load(), c.Sustained, received.Load(), b.Stats(ctx).BufferDepth)
+				}
+			}
+		}
+		published += c.Sustained
+		if c.lossless() {
+			// the backlog of a buffering back-end may take a while to
+			// drain: only a standstill is a stall
+			want := int64(published * c.Subs)
+			lastR, sinceR := int64(-1), time.Now()
+			for received.Load() < want {
+				if cur := received.Load(); cur != lastR {
+					lastR, sinceR = cur, time.Now()
+				} else if time.Since(sinceR) > limit {
+					return "stalled", fmt.Sprintf("sustained traffic: the deliveries stand still at %d of %d for %v after the last Publish returned (backlog %d)", cur, want, limit, b.Stats(ctx).BufferDepth)
+				}
+				time.Sleep(time.Millisecond)
+			}
+		}
+	}
 	if !stopped.Load() {
 		if k, why := doStop(); why != "" {
 			return k, why
@@ -275,6 +322,11 @@ func genCase(t *rapid.T) *Case {
 	if rapid.IntRange(0, 2).Draw(t, "stats") == 0 {
 		c.StatsCalls = rapid.IntRange(1, 5).Draw(t, "statsCalls")
 	}
+	if rapid.IntRange(0, 4).Draw(t, "sustained") == 0 {
+		c.Sustained = rapid.SampledFrom([]int{2000, 10000, 30000}).Draw(t, "sustainedN")
+		c.ReadYield = 0
+		c.StopAt = "idle"
+	}
 	nb := rapid.IntRange(1, 3).Draw(t, "bursts")
 	for i := 0; i < nb; i++ {
 		switch rapid.IntRange(0, 2).Draw(t, "burstKind") {
@@ -319,8 +371,10 @@ func TestBrokerProgressAndShutdown(t *testing.T) {
 				maxBurst = n
 			}
 		}
-		cls := []string{"backend:" + c.Backend, "stop:" + c.Stop, "stop-at:" + c.StopAt, fmt.Sprintf("burst>=30:%v", maxBurst >= 30), fmt.Sprintf("cancelled-stats:%v", c.StatsCalls > 0)}
+		if c.Sustained > maxBurst {
+			maxBurst = c.Sustained
+		}
+		cls := []string{fmt.Sprintf("sustained:%v", c.Sustained > 0), "backend:" + c.Backend, "stop:" + c.Stop, "stop-at:" + c.StopAt, fmt.Sprintf("burst>=30:%v", maxBurst >= 30), fmt.Sprintf("cancelled-stats:%v", c.StatsCalls > 0)}
 		vkit.CaseN(tProg, vkit.Hash(*c), reps, maxBurst >= 2 || c.StopAt != "idle", cls, func() any { return *c })
 	})
 }
-
